@@ -59,6 +59,9 @@ const indepLib = `  dA:
     cmds:
       - for: {var: S}
         cmd: 'printf "{{.K}}|fV|{{.ITEM}}\\n"'
+  rQ:
+    requires: {vars: [R]}
+    cmds: ['printf "{{.K}}|rQ|{{.R}}\\n"']
   gT:
     cmds: ['printf "{{.K}}|gT|{{.G}}\\n"']
   gU:
@@ -74,6 +77,10 @@ func callYAML(c iCall, k string) string {
 	switch c.T {
 	case "cV", "sV", "dF":
 		vars += ", V: " + c.A
+	case "rQ":
+		if c.A != "" {
+			vars += ", R: " + c.A
+		}
 	case "mR":
 		vars += ", L: {ref: .L" + strings.TrimPrefix(c.A, "l") + "}"
 	case "fV":
@@ -130,6 +137,9 @@ func runIndep(content string) ([]string, error) {
 			ln = strings.ReplaceAll(ln, dir, "ROOT")
 			lines = append(lines, ln)
 		}
+	}
+	if err != nil && strings.Contains(err.Error(), "missing required variables") {
+		lines = append(lines, "rQ|!missing-required")
 	}
 	return lines, err
 }
@@ -224,7 +234,7 @@ func CheckC11(tier string) int {
 				for k := 0; k < reps; k++ {
 					got, err := runIndep(tf)
 					bad := ""
-					if err != nil {
+					if err != nil && !(len(c.Exp) == 1 && strings.HasSuffix(c.Exp[0], "!missing-required") && strings.Contains(err.Error(), "missing required variables")) {
 						bad = "run-failed"
 					} else if strings.Join(got, "\n") != strings.Join(al, "\n") {
 						bad = "differs-from-alone"
